@@ -836,3 +836,20 @@ Proof.
     apply has_prefix_length in Hu. rewrite !fold_case_length in Hu.
     apply Nat.leb_gt in Hl. lia.
 Qed.
+
+Lemma site_of_wf l : wf_list l = true -> wf_site (site_of l).
+Proof.
+  induction l as [|[a m0] l IH]; intros H n m; cbn [site_of]; [discriminate|].
+  cbn [wf_list forallb fst snd] in H. apply andb_true_iff in H as [H1 H2].
+  destruct (beq a n) eqn:E.
+  - intros Hm. injection Hm as <-. apply beq_eq in E. subst n.
+    destruct (kind m0), (role_of a); try discriminate; reflexivity.
+  - apply IH. exact H2.
+Qed.
+
+Lemma example_site_writers_rooted : writers_rooted (map snd example_site).
+Proof.
+  intros f [Hf|[Hf|[Hf|[Hf|[Hf|[Hf|[]]]]]]]; try discriminate; injection Hf as <-; intros x Hx; cbv beta.
+  - destruct (beq x _); [eexists; reflexivity|exact Hx].
+  - exact Hx.
+Qed.
